@@ -357,12 +357,20 @@ func isCompressedExtension(p string) bool {
 	return false
 }
 
-func CreateZip(zipPath string, filePaths []string) error {
-	f, err := os.Create(zipPath)
+func CreateZip(zipPath string, filePaths []string) (err error) {
+	// Write to a temporary file, and rename it once it is complete, so that
+	// zipPath never contains a partially-written archive.
+	tmpPath := zipPath + ".tmp"
+	f, err := os.Create(tmpPath)
 	if err != nil {
 		return err
 	}
-	defer f.Close()
+	defer func() {
+		f.Close()
+		if err != nil {
+			os.Remove(tmpPath)
+		}
+	}()
 
 	zw := zip.NewWriter(f)
 	for _, filePath := range filePaths {
@@ -403,5 +411,11 @@ func CreateZip(zipPath string, filePaths []string) error {
 			}
 		}
 	}
-	return zw.Close()
+	if err := zw.Close(); err != nil {
+		return err
+	}
+	if err := f.Close(); err != nil {
+		return err
+	}
+	return os.Rename(tmpPath, zipPath)
 }
